@@ -5,7 +5,7 @@ they are; the monitor checks every step of every execution they produce."""
 import glob, json, os, shutil, subprocess, time
 from . import tlc
 
-PROPS = ("C01", "C02", "C08", "C09", "C11", "C12")     # properties HookProps.tla can tag
+PROPS = ("C01", "C02", "C08", "C09", "C11", "C12")     # properties whose checks run this stage (HookProps.tla tags these, and C18 / C00)
 
 def _post(path):
     """Raw per-thread dump -> observation records (small integer ids by first appearance, sched and gc folded)."""
